@@ -202,6 +202,7 @@ FORMAT_FAULTS = {
         "signed-by-other-key": att_other_key, "signed-other-certinfo": tpm_signed_other_cert_info, "wrong-scheme": att_wrong_scheme,
         "aik-subject-not-empty": tpm_subject, "aik-san-absent": tpm_san_absent, "aik-unknown-vendor": tpm_san_unknown_vendor, "aik-san-no-model": tpm_san_no_model,
         "aik-eku-wrong": tpm_eku_wrong, "aik-eku-absent": tpm_eku_absent, "aik-ca-true": tpm_bc_ca, "aik-basic-constraints-absent": tpm_bc_absent,
+        "ecc-curve-unmappable": set_k(tpm_curve=0x0001), "name-alg-unmappable": set_k(tpm_name_alg_raw="SM3_256"),
         "sig-missing": stmt_drop("sig"), "certinfo-missing": stmt_drop("certInfo"), "pubarea-missing": stmt_drop("pubArea"), "alg-missing": stmt_drop("alg"), "x5c-missing": stmt_drop("x5c"),
     },
     "apple": {
@@ -225,7 +226,7 @@ FORMAT_FAULTS = {
     },
 }
 # faults that only make sense for some credential key families
-NEEDS_FAMILY = {"ecc-point-mismatch": "ec", "ecc-curve-mismatch": "ec"}
+NEEDS_FAMILY = {"ecc-point-mismatch": "ec", "ecc-curve-mismatch": "ec", "ecc-curve-unmappable": "ec"}
 # entries known to be accepted by the unchanged implementation (genuine defects, see DESIGN section 4)
 KNOWN_ACCEPTED = {}
 
